@@ -528,8 +528,10 @@ func runC08Request(c *fw.Ctx, id string, r *rand.Rand, proto string) {
 	resetProcessState()
 	v := map[string]refmatch.Variant{"udp": refmatch.VariantByName("udp4"), "icmp": refmatch.VariantByName("icmp4"), "tcp": refmatch.VariantByName("syn")}[proto]
 	target := drive.TargetFor(v, c.Worker)
-	params := traceroute.TracerouteParams{Hostname: target.String(), Port: 33434, Protocol: proto, MinTTL: 1, MaxTTL: 5, Delay: 50, Timeout: 1 * time.Second,
-		TCPMethod: traceroute.TCPConfigSYN, TracerouteQueries: 3, E2eQueries: 3, ReverseDns: true, CollectSourcePublicIP: true}
+	// (timeout, end-to-end probes): the pause between two end-to-end probes is MaxTTL*timeout/probes, at most one second
+	shape := [][2]int{{1000, 3}, {100, 10}, {300, 6}, {1000, 3}, {40, 12}}[r.Intn(5)]
+	params := traceroute.TracerouteParams{Hostname: target.String(), Port: 33434, Protocol: proto, MinTTL: 1, MaxTTL: 5, Delay: 50, Timeout: time.Duration(shape[0]) * time.Millisecond,
+		TCPMethod: traceroute.TCPConfigSYN, TracerouteQueries: 3, E2eQueries: shape[1], ReverseDns: true, CollectSourcePublicIP: true}
 	env, err := newReqEnv(c, params, target, 33434, false)
 	if err != nil {
 		c.Inconclusive(err.Error())
@@ -539,14 +541,18 @@ func runC08Request(c *fw.Ctx, id string, r *rand.Rand, proto string) {
 	rt := &stallRT{behave: map[string]string{}, release: make(chan struct{})}
 	kinds := []string{"hang-before-headers", "hang-after-headers", "very-slow-body", "transport-error", "valid"}
 	var plan []string
+	calm := r.Intn(2) == 0 // auxiliary services answer at once: the bound is then the request's own pacing and listening time
 	for _, h := range providerHosts {
 		k := kinds[r.Intn(len(kinds))]
+		if calm {
+			k = "valid"
+		}
 		rt.behave[h] = k
 		plan = append(plan, k)
 	}
 	env.fetcher = publicip.VerifNewPublicIPFetcher(&http.Client{Transport: rt})
 	rs := installResolver(func(addr string) ([]string, error, time.Duration) {
-		if r.Intn(3) == 0 {
+		if !calm && r.Intn(3) == 0 {
 			return nil, nil, 10 * time.Second // beyond the lookup timeout: must be abandoned after 5 s
 		}
 		return namesFor(addr), nil, 2 * time.Millisecond
@@ -554,11 +560,18 @@ func runC08Request(c *fw.Ctx, id string, r *rand.Rand, proto string) {
 	defer rs.restore()
 	env.modelFor = func(k int, e *simEnv) *pathModel { return flowPath(k, e, 4, k%2 == 0, 5*time.Millisecond) }
 	spec := drive.Spec{V: v, MinTTL: 1, MaxTTL: 5, Timeout: params.Timeout, Delay: 50 * time.Millisecond, Poll: 100 * time.Millisecond}
-	// e2e launch delays (<= 1 s each) + slowest run + public ip (5 providers x 2.75 s) + reverse DNS (5 s)
-	bound := 3*time.Second + timeBound(spec) + 5*2750*time.Millisecond + 5100*time.Millisecond
+	// e2e launch pauses ((probes-1) x min(MaxTTL*timeout/probes, 1 s)) + slowest run + public ip (5 providers x 2.75 s) + reverse DNS (5 s)
+	pause := time.Duration(params.MaxTTL) * params.Timeout / time.Duration(params.E2eQueries)
+	if pause > time.Second {
+		pause = time.Second
+	}
+	bound := time.Duration(params.E2eQueries-1)*pause + 10*time.Millisecond + timeBound(spec) + 5*2750*time.Millisecond + 5100*time.Millisecond
+	if calm {
+		bound = time.Duration(params.E2eQueries-1)*pause + 10*time.Millisecond + timeBound(spec) + 200*time.Millisecond
+	}
 	var rerr error
 	el, hung := withWatchdog(4*bound, rt.release, func() { _, rerr = env.run(context.Background()) })
-	tag := fmt.Sprintf("%s proto=%s providers=%v", id, proto, plan)
+	tag := fmt.Sprintf("%s proto=%s timeout=%v e2e=%d calm=%v providers=%v", id, proto, params.Timeout, params.E2eQueries, calm, plan)
 	c.Count("requests_timed", 1)
 	c.Nontrivial("request/" + proto)
 	if hung {
